@@ -87,6 +87,7 @@ def gen_cases(ctx):
         yield {"part": "frames", "role": role, "level": lvl, "frames": frames,
                "seed": rng.getrandbits(30), "phantom": rng.random() < 0.85,
                "burst": rng.choice([1, 1, 2, 3])}
+    yield from gen_followed_by_invalid(ctx)
     # systematic: every type x a few lengths, for self-addressed and routed frames, master & node
     for role in ("master3", "net", "meshnm_connected", "router"):
         for dcls in ("self", "child", "parentside"):
@@ -98,6 +99,34 @@ def gen_cases(ctx):
             for k in range(0, len(frames), 96):
                 yield {"part": "frames", "role": role, "level": 0 if role == "master3" else 2,
                        "frames": frames[k:k + 96], "seed": k, "phantom": True, "burst": 1}
+
+
+def gen_followed_by_invalid(ctx):
+    """every frame kind that makes a node answer or keep state, followed IN THE SAME update() by a
+    frame that must be discarded (too short / invalid origin / invalid destination / 16-bit
+    value): the discarded frame must not disturb the handling of the first"""
+    firsts = [128, 130, 131, 148, 149, 150, 193, 194, 195, 196, 197, 198, 0, 65]
+    for role in ROLES:
+        frames = []
+        for typ in firsts:
+            for second in ("short", "origin", "dest", "wide"):
+                for ln in ((0, 2) if typ in (196, 198, 128) else (2,)):
+                    frames.append({"to": None, "dcls": "multicast" if typ == 194 else "self", "ocls": "valid",
+                                   "type": typ, "len": ln, "reserved": 9, "id": typ * 5 + ln, "pipe": 2})
+                    if second == "short":
+                        frames.append({"raw": "0200000011"})
+                    elif second == "origin":
+                        frames.append({"to": None, "dcls": "self", "ocls": "invalid", "type": 1, "len": 3,
+                                       "reserved": 0, "id": 7, "pipe": 1})
+                    elif second == "dest":
+                        frames.append({"to": None, "dcls": "invalid12", "ocls": "valid", "type": 1, "len": 3,
+                                       "reserved": 0, "id": 8, "pipe": 1})
+                    else:
+                        frames.append({"to": None, "dcls": "wide", "ocls": "valid", "type": 1, "len": 3,
+                                       "reserved": 0, "id": 9, "pipe": 1})
+        for k in range(0, len(frames), 64):
+            yield {"part": "frames", "role": role, "level": 0 if role.startswith("master") else 2,
+                   "frames": frames[k:k + 64], "seed": 77 + k, "phantom": True, "burst": 2}
 
 
 def make_node(rig, role, level, seed):
